@@ -128,6 +128,17 @@ CLAIMED = {
             "squares / means over the rows tree_.apply puts in the leaf, with max_depth and min_samples_leaf.",
             "one feature for the linear fit; rank-deficient ranges/leaves not claimed; projection = nearest rational with "
             "denominator <= 1e6 within 1e-9."),
+    "C08": ("DESIGN 4/C08",
+            "TLA+ specs Piecewise (mapping, fallback, per-bucket fits with the borrow rule, dispatch) and PiecewiseSched "
+            "(bucket tasks x shared/per-bucket RNG, all interleavings): TLC model checking incl. negative runs + trace "
+            "validation with recording local models + replay of task orders through an ordered executor",
+            "TLC checks Partition, OneModelPerNonEmptyBucket, ExactRows (exactly one borrowed row per missing class), "
+            "fallback and schedule independence for every small instance and interleaving; seeded fits with recording "
+            "stubs (rows carry ids) are validated event by event: each local fit against its bucket (by object identity), "
+            "the order of estimators_, every prediction against the model that must answer (unseen cells -> fallback), and "
+            "the same fit re-run under permuted task orders.",
+            "cells are read from the fitted binner; task orders are forced at task granularity (joblib's Parallel in the "
+            "module namespace is replaced), not OS thread interleavings."),
 }
 
 PENDING_REASON = "check not built yet in this round (planned: see DESIGN.md section 4); not claimed until it runs"
